@@ -123,8 +123,17 @@ def rule_record(program, ctx):
     for n, c in ins:
         dq = c.func.value.id
 
+        from ..lib import expand_aliases
+
+        def canon(e):
+            return ast.unparse(expand_aliases(fn, e))
+
+        dq_canon = canon(ast.Name(id=dq, ctx=ast.Load()))
+        rules_canon = canon(ast.parse("rules[command]", mode="eval").body)
+
         def pred(expr, pol, dq=dq):
-            return (not pol) and isinstance(expr, ast.Call) and call_name(expr) == "self.evaluate_rules" and len(expr.args) == 2 and dotted(expr.args[1]) == dq and ast.unparse(expr.args[0]) == "rules[command]"
+            return (not pol) and isinstance(expr, ast.Call) and call_name(expr) == "self.evaluate_rules" and len(expr.args) == 2 \
+                and canon(expr.args[1]) == dq_canon and canon(expr.args[0]) == rules_canon
 
         passes = test_edges(cfg, pred)
         if must_pass(cfg, passes, [n]):
@@ -240,14 +249,20 @@ def rule_precedence(program, ctx):
     else:
         ctx.bad(finding_at(P, rid, loop, f"scope order is {order}: a specific-address rule no longer takes precedence / a scope is skipped"))
     rets = [r for r in ast.walk(loop) if isinstance(r, ast.Return) and isinstance(r.value, ast.Constant) and r.value.value is False]
+    cfg = cfg_of(fn)
+
+    def has_rule(expr, pol):
+        if isinstance(expr, ast.Compare) and len(expr.ops) == 1 and dotted(expr.left) == "command" and dotted(expr.comparators[0]) == "rules":
+            return (isinstance(expr.ops[0], ast.In) and pol) or (isinstance(expr.ops[0], ast.NotIn) and not pol)
+        return False
+
+    passes = test_edges(cfg, has_rule)
     for r in rets:
-        guards = [ast.unparse(a.test) for a in ancestors(r) if isinstance(a, ast.If) and any(a is x for x in ancestors(r)) and any(y is loop for y in ancestors(a))]
-        in_cmd = any(g == "command in rules" for g in guards)
-        if in_cmd:
-            ctx.ok(rid, r, f"early `return False` under {guards}")
+        if must_pass(cfg, passes, cfg.nodes_of(r)):
+            ctx.bad(finding_at(P, rid, r, "the early `return False` is reachable without `command in rules` having held for the scope being evaluated: an address with a specific "
+                               "section skips the global and per-IP rules for commands that section does not mention"))
         else:
-            ctx.bad(finding_at(P, rid, r, f"the early `return False` (guards {guards}) is not inside `if command in rules:`: an address with a specific section skips the global and per-IP "
-                               "rules for commands that section does not mention"))
+            ctx.ok(rid, r, "early `return False` only after `command in rules` of that scope")
     if not rets:
         ctx.bad(finding_at(P, rid, loop, "no precedence return: specific-address rules (incl. -1 exemptions) do not override the generic ones"))
 
